@@ -24,6 +24,16 @@ static void regs_make_wf(RegisterState *r)
     for (int i = 0; i < 3; i++) { r->ip.e[i] &= 1; r->im.e[i] &= 1; r->ic.e[i] &= 1; }
     for (int i = 0; i < 5; i++) r->ou.e[i] &= 1;
     r->mod0_unk_const &= 7;
+    /* two-way and one-way banks within the same widths */
+#define MK_ARX(f, m) do { r->f.rni &= (m); r->f.rnj &= (m); r->f.stepi &= 7; r->f.stepj &= 7; r->f.offseti &= 3; r->f.offsetj &= 3; } while (0)
+    MK_ARX(shadow_swap_ar0, 7); MK_ARX(shadow_swap_ar1, 7); MK_ARX(shadow_swap_arp0, 3); MK_ARX(shadow_swap_arp1, 3); MK_ARX(shadow_swap_arp2, 3); MK_ARX(shadow_swap_arp3, 3);
+    r->shadow_swap_registers.base_0.shadow &= 3; r->shadow_swap_registers.base_1.shadow &= 1; r->shadow_swap_registers.base_2.shadow &= 1; r->shadow_swap_registers.base_3.shadow &= 3; r->shadow_swap_registers.base_4.shadow &= 1;
+    r->shadow_swap_registers.base_5.shadow.e[0] &= 3; r->shadow_swap_registers.base_5.shadow.e[1] &= 3; r->shadow_swap_registers.base_6.shadow &= 0xFF; r->shadow_swap_registers.base_7.shadow &= 1; r->shadow_swap_registers.base_8.shadow &= 1;
+    for (int i = 0; i < 8; i++) { r->shadow_swap_registers.base_9.shadow.e[i] &= 1; r->shadow_swap_registers.base_10.shadow.e[i] &= 1; }
+    for (int i = 0; i < 3; i++) r->shadow_swap_registers.base_11.shadow.e[i] &= 1;
+    r->shadow_swap_registers.base_12.shadow &= 1; r->shadow_swap_registers.base_13.shadow &= 1; r->shadow_swap_registers.base_14.shadow &= 1;
+    r->shadow_registers.base_0.shadow &= 1; r->shadow_registers.base_1.shadow &= 1; r->shadow_registers.base_2.shadow &= 1; r->shadow_registers.base_3.shadow &= 1; r->shadow_registers.base_4.shadow &= 1;
+    r->shadow_registers.base_5.shadow &= 1; r->shadow_registers.base_6.shadow &= 1; r->shadow_registers.base_7.shadow &= 1; r->shadow_registers.base_8.shadow &= 1; r->shadow_registers.base_9.shadow &= 1;
 }
 #endif
 #define CHECK_ST(st, expr, name) NATIVE_ONLY(CHECK(eqv_regs(st, (expr)) && wf_regs(&st), name ".postcondition");)
